@@ -17,7 +17,7 @@ Open Scope N_scope.
    >= 2^63) and C20_convert_shape_refuted (the wrap to a negative Int) is proved in full for the converter
    AFTER the repair proposed in notes/pending/C20-uint64-float.diff; until that diff is applied the
    harness reports the wrap on /repo as known finding uint64-wraps.
-   [Err] is a panic (rejected kinds, non-string map keys, MarshalValue called through a nil pointer);
+   [Err] is a panic (rejected kinds, non-string map keys);
    [OutOfModel] is exactly C20_convert_outofmodel below. *)
 Theorem C20_convert_shape : forall hi lc g v,
   convert_with hi lc g = Ok v -> converts lc hi g v.
@@ -72,11 +72,14 @@ Theorem C20_value_by_depth : forall lc hi k v n,
 Proof. intros lc hi k v n. split; [reflexivity | apply conv_value_deep]. Qed.
 Print Assumptions C20_value_by_depth.
 
-(* ... and a nil pointer at the end of any chain is null, with the two exceptions of Go's method sets *)
+(* ... and a nil pointer at the end of any chain is null, whatever it points to (a nil pointer to a value-receiver
+   Marshaler included: the model describes the converter after notes/pending/C20-nil-marshaler.diff; the pinned tree
+   calls MarshalValue through it and panics, reported as known finding nil-marshaler-panics), with the one exception of
+   the nil pointer to a data.Value type passed directly *)
 Theorem C20_nil_pointer_chain : forall lc hi k m n,
   conv lc hi CSlot (ptrs k (GPtr None)) n = Ok (VNull, n) /\
+  conv lc hi CSlot (ptrs k (GNilPtrTo true)) n = Ok (VNull, n) /\
   conv lc hi CSlot (ptrs (S k) (GNilPtrTo m)) n = Ok (VNull, n) /\
-  conv lc hi CSlot (GNilPtrTo true) n = Err e_nil_receiver /\
   conv lc hi CSlot (GNilPtrTo false) n = OutOfModel.
 Proof. exact conv_nil_chain. Qed.
 Print Assumptions C20_nil_pointer_chain.
